@@ -101,7 +101,13 @@ class Config:
         for step in range(self.total + 1):
             if step in self.cuts:
                 tag = "T%d" % step
-                L.append("checkpoint 0 %s %s" % (tag, " ".join("%d:%s" % (p, paths[p]) for p in range(m))))
+                # chained interruption (Resume.equiv_chain): half of the later checkpoints are taken from the
+                # latest resumed copy — a run that was itself restored from a file — instead of the original
+                src_o, src_base, src_how = 0, 0, how_same
+                if copies and r.random() < 0.5:
+                    src_o, src_base, src_how = copies[-1]
+                    self.chained = getattr(self, "chained", 0) + 1
+                L.append("checkpoint %d %s %s" % (src_o, tag, " ".join("%d:%s" % (src_base + p, paths[p]) for p in range(m))))
                 # another device instance of the same backend half of the time (a gradient or statistic left
                 # on the old device shows as "Device mismatched" in the first step after the restore)
                 dev = r.choice(["naive", "naive2"]) if not self.cross else r.choice(["naive", "eigen", "naive2"])
@@ -110,7 +116,7 @@ class Config:
                 devtok = dev + ("+addfirst" if r.random() < 0.5 else "")
                 L.append("restore %s %d %s %s %s" % (tag, nopts, k, devtok, " ".join(str(nparams + p) for p in range(m))))
                 same_backend = dev.rstrip("2") == dev0
-                copies.append((nopts, nparams, how_same if same_backend else "near"))
+                copies.append((nopts, nparams, src_how if same_backend else "near"))
                 # immediately after the restore (n = 0)
                 L.append("osame 0 %d" % nopts)
                 for p in range(m):
@@ -238,6 +244,7 @@ def run(chk):
     n_cfg = 60 if quick else 500
     r = chk.rng
     pairs = 0
+    chained = 0      # checkpoints taken from a run that was itself restored from a checkpoint (Resume.equiv_chain)
     for i in range(n_cfg):
         kind = T.kinds[i % len(T.kinds)]
         if quick:
@@ -256,6 +263,7 @@ def run(chk):
         c = Config(r, T, total, cuts, kind=kind if (boundary is None or i % 2) else "Adam", cross=cross, boundary=boundary,
                    force_clip=force_clip, zeros=(i % 5 == 1))
         hists.append(c.build())
+        chained += getattr(c, "chained", 0)
         pairs += sum(total - k + 1 for k in cuts)
     per_stream = 6 if quick else 10
     streams, cur = [], []
@@ -281,6 +289,7 @@ def run(chk):
     chk.extra_cov["configurations_with_zero_hyperparameters_or_frozen_lr_scale"] = len(
         [1 for h in hists if any(l.startswith("opt 0") and " x00000000" in l for l in h) or any(l.endswith("lr_scale x00000000") for l in h)])
     chk.extra_cov["interruption_continuation_pairs"] = pairs
+    chk.extra_cov["chained_checkpoints"] = chained
     chk.extra_cov["comparisons_resumed_vs_uninterrupted"] = len(cmp_lines)
     chk.extra_cov["of_those_bit_exact_mode"] = len([1 for l, o in cmp_lines if " bits " in l])
     chk.extra_cov["of_those_equal"] = len([1 for l, o in cmp_lines if o == "ok same"])
